@@ -8,8 +8,10 @@
 (* Families (Fams, a sequence) are fully enumerated sub-spaces, see QuickFams / ThoroughFams.        *)
 (* SpecSane: on every table state of every history and for every probe, the linear-scan           *)
 (* definitions (the relation) accept the result of the bisection model of the code (Ref), and     *)
-(* every ordered record set is sorted - the relation is satisfiable and the scans coincide with   *)
-(* correct bisections.  The input space, the universes and the observers are written to OUT_FILE. *)
+(* every ordered record set is sorted and holds exactly the rows of its group - the relation is   *)
+(* satisfiable and the scans coincide with correct bisections; on tables of <= 2 rows also that   *)
+(* the all-at-once tables used by the relation equal the one-at-a-time definitions FindLt .. Rank.*)
+(* The input space, the universes and the observers are written to OUT_FILE.                      *)
 EXTENDS SortedSearch, TLC, Json, IOUtils, SequencesExt, FiniteSetsExt
 CONSTANTS Fams
 
@@ -30,24 +32,28 @@ Mix3 == {1, 3, 5}            \* None, 1, "a"
 Two  == {3, 5}               \* 1, "a"
 
 QuickFams == <<
-  Fam(1, All5, 0, 3, {0, 1}, {"asc"}, 0, "std"),          \* every table of <= 3 rows
-  Fam(1, All5, 4, 4, {0},    {"rev"}, 0, "std"),          \* 4 rows, one group, manualSort against id
-  Fam(1, Mix3, 4, 4, {0, 1}, {"asc"}, 0, "std"),          \* 4 rows, two groups, mixed classes
+  Fam(1, All5, 0, 2, {0, 1}, {"asc"}, 0, "std"),          \* every table of <= 2 rows
+  Fam(1, Mix3, 3, 3, {0, 1}, {"asc"}, 0, "std"),          \* 3 rows, two groups, mixed classes
+  Fam(1, All5, 3, 3, {0},    {"rev"}, 0, "std"),          \* 3 rows, one group, manualSort against id
+  Fam(1, Mix3, 4, 4, {0},    {"rev"}, 0, "std"),          \* 4 rows
+  Fam(1, Two,  4, 4, {0, 1}, {"asc"}, 0, "std"),
   Fam(2, 1..9, 1, 2, {0},    {"asc", "rev"}, 0, "std"),   \* bool = int ties, floats, str order
-  Fam(1, Mix3, 1, 2, {0, 1}, {"asc"}, 1, "std"),          \* one edit
+  Fam(1, Two,  1, 2, {0, 1}, {"asc"}, 1, "std"),          \* one edit
   Fam(1, Two,  1, 2, {0, 1}, {"asc"}, 0, "id") >>         \* order_by="id"
 TinyFams == <<             \* for experiments only
   Fam(1, Mix3, 0, 2, {0, 1}, {"asc"}, 0, "std"),
   Fam(1, Two,  1, 1, {0, 1}, {"rev"}, 2, "std"),
   Fam(1, Two,  1, 1, {0},    {"asc"}, 0, "id") >>
 ThoroughFams == <<
-  Fam(1, All5, 0, 4, {0, 1}, {"asc"}, 0, "std"),
+  Fam(1, All5, 0, 4, {0, 1}, {"asc"}, 0, "std"),          \* every table of <= 4 rows
   Fam(1, All5, 3, 3, {0, 1}, {"rev"}, 0, "std"),
   Fam(1, All5, 4, 4, {0},    {"rev"}, 0, "std"),
   Fam(2, 1..9, 1, 3, {0},    {"asc", "rev"}, 0, "std"),
-  Fam(2, {3, 6, 8, 5, 7}, 3, 3, {0, 1}, {"rev"}, 0, "std"),
-  Fam(1, Mix3, 1, 3, {0, 1}, {"asc"}, 1, "std"),
-  Fam(1, Two,  1, 2, {0, 1}, {"rev"}, 2, "std"),
+  Fam(2, {3, 6, 8, 5, 7}, 3, 3, {0, 1}, {"rev"}, 0, "std"),     \* 1, True, 1.5, "a", "b"
+  Fam(1, Mix3, 1, 2, {0, 1}, {"asc"}, 1, "std"),          \* one edit
+  Fam(1, Two,  3, 3, {0, 1}, {"rev"}, 1, "std"),
+  Fam(1, Two,  1, 1, {0, 1}, {"asc"}, 2, "std"),          \* two edits
+  Fam(1, Two,  2, 2, {0},    {"rev"}, 2, "std"),
   Fam(1, Mix3, 1, 2, {0, 1}, {"asc"}, 0, "id") >>
 
 RowsOf(fm) ==
@@ -63,15 +69,15 @@ StepsOn(fm, n) ==          \* the step alphabet for tables whose row ids stay wi
 \* ---------------------------------------------------------------------------------------------
 \* the table states of a history (the engine's own states are recorded; this is the design model)
 Start(rows, msv) ==
-  [i \in 1..Len(rows) |->
-     [id |-> i, ms |-> IF msv = "asc" THEN 2 * i ELSE 2 * (Len(rows) + 1 - i), g |-> rows[i].g, s |-> rows[i].s]]
+  Fz([i \in 1..Len(rows) |->
+     [id |-> i, ms |-> IF msv = "asc" THEN 2 * i ELSE 2 * (Len(rows) + 1 - i), g |-> rows[i].g, s |-> rows[i].s]])
 
 MaxOf(S) == IF S = {} THEN 0 ELSE CHOOSE m \in S : \A x \in S : x <= m
 HasId(t, id) == \E i \in 1..Len(t) : t[i].id = id
 
 ApplyStep(t, st) ==
-  CASE st.op = "set_s" -> [i \in 1..Len(t) |-> IF t[i].id = st.id THEN [t[i] EXCEPT !.s = st.s] ELSE t[i]]
-    [] st.op = "set_g" -> [i \in 1..Len(t) |-> IF t[i].id = st.id THEN [t[i] EXCEPT !.g = st.g] ELSE t[i]]
+  CASE st.op = "set_s" -> Fz([i \in 1..Len(t) |-> IF t[i].id = st.id THEN [t[i] EXCEPT !.s = st.s] ELSE t[i]])
+    [] st.op = "set_g" -> Fz([i \in 1..Len(t) |-> IF t[i].id = st.id THEN [t[i] EXCEPT !.g = st.g] ELSE t[i]])
     [] st.op = "rm"    -> SelectSeq(t, LAMBDA r : r.id # st.id)
     [] st.op = "add"   -> Append(t, [id |-> MaxOf({t[i].id : i \in 1..Len(t)}) + 1,
                                      ms |-> MaxOf({t[i].ms : i \in 1..Len(t)}) + 2, g |-> st.g, s |-> st.s])
@@ -96,7 +102,7 @@ InputsOf(fm) ==
                                          a \in StepsOn(fm, fm.rmax), b \in StepsOn(fm, fm.rmax + 1)} : ValidHist(in)}
 
 Probes(u) == LET U == Universes[u]
-             IN [j \in 1..(2 * Len(U)) |-> [g0 |-> (j - 1) \div Len(U), q |-> U[((j - 1) % Len(U)) + 1]]]
+             IN Fz([j \in 1..(2 * Len(U)) |-> [g0 |-> (j - 1) \div Len(U), q |-> U[((j - 1) % Len(U)) + 1]]])
 
 RECURSIVE AllInputsFrom(_)
 AllInputsFrom(k) == IF k > Len(Fams) THEN <<>> ELSE SetToSeq(InputsOf(Fams[k])) \o AllInputsFrom(k + 1)
@@ -140,21 +146,23 @@ AllSorted(set, t, pr) ==
 
 \* the one-at-a-time definitions and the tables coincide
 OneByOne(set, t, pr) ==
-  /\ \A fi \in 1..Len(FindObs(set)) : \A j \in 1..Len(pr) :
+  /\ \A fi \in 1..Len(FindObs(set)) :
        LET fo == FindObs(set)[fi]
-           ord == Ordered(t, fo.grp, pr[j].g0, FSpec(fo))
-           pv == ProbeVals(fo, pr[j])
-       IN /\ WantFindTable(t, fo, pr)[j] = WantFind(t, fo, pr[j])
-          /\ WantFind(t, fo, pr[j]) = <<FindLt(ord, pv, FSpec(fo)), FindLe(ord, pv, FSpec(fo)),
-                                        FindGt(ord, pv, FSpec(fo)), FindGe(ord, pv, FSpec(fo)),
-                                        FindEq(ord, pv, FSpec(fo))>>
-  /\ \A pi \in 1..Len(PosObs(set)) : \A i \in 1..Len(t) :
-       WantPosTable(t, PosObs(set)[pi])[i] = WantPos(t, PosObs(set)[pi], t[i])
+           table == WantFindTable(t, fo, pr)
+       IN \A j \in 1..Len(pr) :
+            LET ord == Ordered(t, fo.grp, pr[j].g0, FSpec(fo))
+                pv == ProbeVals(fo, pr[j])
+            IN /\ table[j] = WantFind(t, fo, pr[j])
+               /\ table[j] = <<FindLt(ord, pv, FSpec(fo)), FindLe(ord, pv, FSpec(fo)), FindGt(ord, pv, FSpec(fo)),
+                               FindGe(ord, pv, FSpec(fo)), FindEq(ord, pv, FSpec(fo))>>
+  /\ \A pi \in 1..Len(PosObs(set)) :
+       LET table == WantPosTable(t, PosObs(set)[pi])
+       IN \A i \in 1..Len(t) : table[i] = WantPos(t, PosObs(set)[pi], t[i])
 
 SpecSane ==
   done =>
   \A k \in 0..Len(input.steps) :
     LET t == TableAt(input, k)
         pr == Probes(input.u)
-    IN Ok(input.set, Ref(input.set, t, pr)) /\ AllSorted(input.set, t, pr) /\ (k > 0 \/ OneByOne(input.set, t, pr))
+    IN Ok(input.set, Ref(input.set, t, pr)) /\ AllSorted(input.set, t, pr) /\ (Len(t) > 2 \/ OneByOne(input.set, t, pr))
 =============================================================================
